@@ -9,5 +9,6 @@ CONSTANTS
   Ops <- MC_OpsOdd
   ReqVers <- MC_VOdd
   Lazies <- MC_Eager
+  Dev = {}
   Known <- MC_KnownDesign
 CHECK_DEADLOCK FALSE
